@@ -31,6 +31,7 @@ use crate::bitsink::BitSink;
 use crate::bitsink::MemSink;
 use crate::constant::panic_msg;
 use crate::constant::qlpc::MAX_ORDER as MAX_LPC_ORDER;
+use crate::constant::rice::MAX_PARTITION_ORDER as MAX_RICE_PARTITION_ORDER;
 use crate::constant::MAX_CHANNELS;
 use crate::error::verify_range;
 use crate::error::verify_true;
@@ -2317,7 +2318,18 @@ impl Residual {
         quotients: &[u32],
         remainders: &[u32],
     ) -> Result<Self, VerifyError> {
-        // Some pre-construction verification
+        // Some pre-construction verification (`from_parts` assumes these).
+        verify_range!(
+            "partition_order",
+            partition_order,
+            ..=MAX_RICE_PARTITION_ORDER
+        )?;
+        verify_block_size!("block_size", block_size)?;
+        verify_true!(
+            "rice_params.len",
+            rice_params.len() == 1usize << partition_order,
+            "must be equal to the number of partitions"
+        )?;
         let ret = Self::from_parts(
             partition_order as u8,
             block_size,
